@@ -706,3 +706,54 @@ def _spec_str(con):
             return "0"
         return "%s(arg%d.%s)" % (x[0], x[1], ".".join(str(e[2]) for e in x[2]))
     return "%s - %s <= %d" % (s(con[0]), s(con[1]), con[2])
+
+
+def range_expansion_capped(ck, F, rule="LOOP-BOUND"):
+    """'runs without bound': wherever the importer expands a cell range read from the file (the result of parse_range)
+    into one map entry per cell, a comparison of the cell count with a constant cap dominates the loops -- as
+    load_hyperlinks does with MAX_HYPERLINK_RANGE_CELLS.  A `ref="A1:XFD1048576"` otherwise costs 1.7e10 insertions."""
+    n = 0
+    for path in sorted(F.body_paths()):
+        h = F.heads[path]
+        if h["crate"] != "ironcalc" or "/import/" not in h["file"]:
+            continue
+        cs = F.calls.get(path, [])
+        if not any(c.endswith("parse_range") for c in cs):
+            continue
+        b = F.body(path)
+        # loop heads driven by an iterator over a range whose bounds come from parse_range
+        loops = []
+        for bi, t in b.calls():
+            q = b.callee_q(t) or ""
+            if q.rsplit("::", 1)[-1] != "next" or "range" not in q.lower():
+                continue
+            sr = sources(b, t["args"][0]) if t["args"] else set()
+            if any(x[0] == "call" and x[1].endswith("parse_range") for x in sr):
+                loops.append(bi)
+        if not loops:
+            continue
+        # only loops that insert into a map / push into a vector per cell
+        for lb in loops:
+            body_blocks = b.reachable_from(lb)
+            grows = [cb for cb, ct in b.calls() if cb in body_blocks and (b.callee_q(ct) or "").rsplit("::", 1)[-1] in ("insert", "push") and lb in b.reachable_from(cb)]
+            if not grows:
+                continue
+            n += 1
+            capped = False
+            for d in b.dominators_of(lb):
+                tt = b.term(d)
+                if tt["k"] == "switch" and tt["ty"] == "bool":
+                    src = b.trace(tt["o"])
+                    if src["kind"] == "rv" and src["rv"]["k"] == "bin" and src["rv"]["op"] in ("Gt", "Ge", "Lt", "Le"):
+                        sa, sb_ = sources(b, src["rv"]["a"]), sources(b, src["rv"]["b"])
+                        both = sa | sb_
+                        if any(x[0] == "call" and x[1].endswith("parse_range") for x in both) and ("arith", "Mul") in both and \
+                                (src["rv"]["a"].get("k") is not None or src["rv"]["b"].get("k") is not None):
+                            capped = True
+            f, l = b.loc(lb)
+            qn = b.qname.split("::", 1)[-1]
+            k = sum(1 for x in loops if x <= lb)
+            ck.ob(rule, "%s|range-loop#%d capped" % (qn, k), capped,
+                  "%s expands a range taken from the file into one entry per cell with no cap on the number of cells: a `ref` spanning the whole "
+                  "sheet makes the import run (and allocate) without practical bound" % qn, f, l, sample={"fn": qn})
+    ck.note("range_expansion_loops", n)
